@@ -668,6 +668,9 @@ def _sqrt_resolve(c, x, use_solver=True):
         for (_v, sa, ca) in list(c.atoms.values())[:8]:
             prev = prev + [Term(sa), Term(ca)]                              # |sin a|, |cos a| (e.g. |vex(R - R^T)| / 2)
         hints = hints + prev + [prev[i] * prev[j] for i in range(len(prev)) for j in range(i, len(prev))]
+        for nm_, (va, _sa, _ca) in list(c.atoms.items())[:8]:
+            ta = Term(va, ({nm_: Fraction(1)}, Fraction(0)))
+            hints = hints + [ta, ta * 2]       # |theta u| = |theta| for a unit u; theta = twice a half-angle atom
         k = which_zero(c.rules, [x.e - g.e * g.e for g in hints], recips=c.recips)
         if k is not None:
             c.notes.append(('sqrt-resolved-nf', str(hints[k])[:60]))
@@ -927,16 +930,30 @@ def _atan2(y, x):
 
 
 def _atan2_new(c, yt, xt, ye, xe, p):
-    # resolution: (y, x) parallel to the (sin, cos) pair of a known atom
-    hit = _match_atom(c, [(nm, ye * ca - xe * sa) for nm, (va, sa, ca) in c.atoms.items()])
+    # resolution: (y, x) parallel to the (sin, cos) pair of a known atom, or of twice a known atom (rotation matrices built
+    # from half-angle data: unit quaternions)
+    tests = [((nm, 1, 1), ye * ca - xe * sa) for nm, (va, sa, ca) in c.atoms.items()]
+    inputs_ = [(nm, a) for nm, a in c.atoms.items() if c.atom_meta.get(nm, {}).get('kind', 'input') == 'input']
+    tests += [((nm, 2, 1), ye * (ca * ca - sa * sa) - xe * (2 * sa * ca)) for nm, (va, sa, ca) in inputs_]
+    tests += [((nm, 1, -1), ye * ca + xe * sa) for nm, (va, sa, ca) in inputs_]                   # the mirrored angle -a
+    tests += [((nm, 2, -1), ye * (ca * ca - sa * sa) + xe * (2 * sa * ca)) for nm, (va, sa, ca) in inputs_]
+    hit = _match_atom(c, tests)
     if hit is not None:
+        hit, mult, sgn = hit
         va, sa, ca = c.atoms[hit]
+        if mult == 2:
+            va, sa, ca = 2 * va, 2 * sa * ca, ca * ca - sa * sa
+        if sgn == -1:
+            va, sa = -va, -sa
         k = Term(ye) * Term(sa) + Term(xe) * Term(ca)          # (y, x) == k * (sin a, cos a)
         k = _canonical(c, k)        # same factor written differently -> same decision (no duplicate forks)
         if (k > 0):
-            same = _same_angle_if_principal(c, hit, -PI * Fraction(9999, 10000), PI)
+            if sgn == 1:
+                same = _same_angle_if_principal(c, hit, -PI * Fraction(9999, 10000) / mult, PI / mult)
+            else:
+                same = _same_angle_if_principal(c, hit, -PI / mult, PI * Fraction(9999, 10000) / mult)
             if same is not None:
-                return same
+                return same * (mult * sgn) if (mult, sgn) != (1, 1) else same
             t, s, co = new_atom('atan2', kind='atan2', pair=(sa, ca))
             _angle_relation(c, t.e, va, 1, [0], 2 * p)
         elif (k < 0):
